@@ -326,6 +326,32 @@ def monitors():
             out.append((f"bad-elementwise-{kind}", f"returned {type(r).__name__}"))
         except Exception:  # noqa: BLE001
             out.append((f"bad-elementwise-{kind}", "ok"))
+
+    # wrong type with the right shape: values numpy could consume but that are not tensors of the backend
+    class ArrayLike:
+        def __init__(self, a):
+            self._a = np.asarray(a)
+            self.shape, self.dtype, self.ndim = self._a.shape, self._a.dtype, self._a.ndim
+
+        def __array__(self, dtype=None, copy=None):
+            return self._a
+
+    wrappers = [("memoryview", lambda a: memoryview(np.ascontiguousarray(a))), ("array-like", ArrayLike), ("np.float64-for-0d", lambda a: np.float64(np.sum(a)) if np.ndim(a) == 0 else ArrayLike(a)), ("nested-tuple", lambda a: tuple(np.asarray(a).tolist()) if np.ndim(a) else float(a))]
+    for wname, wrap in wrappers:
+        for attempt in ("first", "repeat"):
+            f = einx.numpy.adapt_numpylike_reduce(lambda x, axis, wrap=wrap: wrap(np.sum(x, axis=axis)))
+            for desc, arr in (("a [b] c -> a c", np.zeros((2, 3, 2))), ("[a b]", np.zeros((2, 3)))):
+                try:
+                    r = f(desc, arr)
+                    out.append((f"bad-reduce-type-{wname}:{desc}:{attempt}", f"returned {type(r).__name__}"))
+                except Exception:  # noqa: BLE001
+                    out.append((f"bad-reduce-type-{wname}:{desc}:{attempt}", "ok"))
+            g = einx.numpy.adapt_numpylike_elementwise(lambda a, b, wrap=wrap: wrap(a + b))
+            try:
+                r = g("a b, b -> a b", x, np.arange(3))
+                out.append((f"bad-elementwise-type-{wname}:{attempt}", f"returned {type(r).__name__}"))
+            except Exception:  # noqa: BLE001
+                out.append((f"bad-elementwise-type-{wname}:{attempt}", "ok"))
     return out
 
 
@@ -398,10 +424,12 @@ def write_monitor_replay(name):
     import os
 
     os.makedirs(os.path.join(runner.REPLAY_DIR, PROP), exist_ok=True)
-    path = os.path.join(runner.REPLAY_DIR, PROP, f"monitor_{name}.py")
+    import re
+
+    path = os.path.join(runner.REPLAY_DIR, PROP, "monitor_" + re.sub(r"[^A-Za-z0-9_.-]+", "_", name) + ".py")
     with open(path, "w") as f:
         f.write(
-            "#!/venv/bin/python\nimport sys\nsys.path.insert(0, '/verif')\nsys.path.insert(0, '/repo')\n"
+            "#!/verif/.venv/bin/python\nimport sys\nsys.path.insert(0, '/verif')\nsys.path.insert(0, '/repo')\n"
             "from checks.c15 import monitors\n"
             f"bad = [m for m in monitors() if m[0] == {name!r} and m[1] != 'ok']\nprint(bad)\n"
             "print('REPRODUCED: ' + str(bad) if bad else 'NOT-REPRODUCED')\nsys.exit(1 if bad else 0)\n"
